@@ -185,6 +185,7 @@ def assign_alphabet(A, names):
         "r=c": {r: c},
         "c=a": {c: a},
         "@[sp+4]=0": {m.ExprMem(sp + m.ExprInt(4, 32), 32): m.ExprInt(0, 32)},
+        "a=5": {a: m.ExprInt(5, 32)},
         "b=5": {b: m.ExprInt(5, 32)},
         "b=2": {b: m.ExprInt(2, 32)},
         "r=b+1": {r: b + one},
